@@ -16,7 +16,7 @@
 (* neighbour.  What the parser has to answer is a function of the program  *)
 (* model only (the Expected section): it does not mention the layout.      *)
 (***************************************************************************)
-EXTENDS Integers, Sequences, FiniteSets, TLC, Json
+EXTENDS Integers, Sequences, FiniteSets, TLC, Json, LexLit
 
 RawDocs == JsonDeserialize("docs.json")     \* see lib/c03_lex.py tla_doc(): toks, flists, enums, anns, endnl
 NDocs == Len(RawDocs)
@@ -29,25 +29,11 @@ GNewline == 2
 GEmpty == 8
 NGaps == Len(Gaps)
 
-DQ == "\""
-SQ == "'"
-BS == "\\"
-
 Wordy(k) == k \in {"kw", "id", "int", "dbl"}
 CanFuse(l, r) == Wordy(l.k) /\ Wordy(r.k)     \* two such tokens written without a gap read as one token
 
 -----------------------------------------------------------------------------
 (* spellings *)
-RECURSIVE Concat(_, _)
-Concat(s, i) == IF i > Len(s) THEN "" ELSE s[i] \o Concat(s, i + 1)
-
-\* the only escape of the grammar: a backslash before the enclosing quote
-EscAtom(a, q) == IF a = q THEN BS \o a ELSE a
-RECURSIVE RawFrom(_, _, _)
-RawFrom(a, q, i) == IF i > Len(a) THEN "" ELSE EscAtom(a[i], q) \o RawFrom(a, q, i + 1)
-Raw(a, q) == q \o RawFrom(a, q, 1) \o q
-Content(a) == Concat(a, 1)            \* literal text of the AST: only the enclosing quote unescaped
-
 HexD == <<"0", "1", "2", "3", "4", "5", "6", "7", "8", "9", "a", "b", "c", "d", "e", "f">>
 HexU == <<"0", "1", "2", "3", "4", "5", "6", "7", "8", "9", "A", "B", "C", "D", "E", "F">>
 RECURSIVE Digits(_, _, _)
@@ -256,23 +242,7 @@ DoneLegal == ph \in {"done", "mutant"} => Legal(Doc, lay, var)
 Deviations(D, l, v) == Cardinality({i \in 1..N(D) + 1 : l[i] # CanonGap(D, i)}) + Cardinality({i \in 1..N(D) : v[i] # 1})
 DeviationsCounted == ph \in {"done", "mutant"} => dev = Deviations(Doc, lay, var) /\ dev <= Budget
 
-\* The grammar reads a literal back as the content the printer was given, whatever the quote: the raw text
-\* between the quotes is a sequence of characters in which a backslash followed by a quote is one escape; only the
-\* escape of the enclosing quote is unescaped.  (Contents ending in a backslash cannot be written and are excluded.)
-RECURSIVE RawSeq(_, _, _)
-RawSeq(a, q, i) == IF i > Len(a) THEN <<>> ELSE (IF a[i] = q THEN <<BS, q>> ELSE <<a[i]>>) \o RawSeq(a, q, i + 1)
-RECURSIVE ReadLit(_, _, _)
-ReadLit(r, q, i) ==           \* <<closed, content atoms>>
-  IF i > Len(r) THEN <<TRUE, <<>>>>
-  ELSE IF r[i] = BS /\ i < Len(r) /\ r[i + 1] \in {DQ, SQ}
-       THEN LET rest == ReadLit(r, q, i + 2)
-            IN <<rest[1], (IF r[i + 1] = q THEN <<q>> ELSE <<BS, r[i + 1]>>) \o rest[2]>>
-       ELSE IF r[i] = q THEN <<FALSE, <<>>>>
-       ELSE LET rest == ReadLit(r, q, i + 1) IN <<rest[1], <<r[i]>> \o rest[2]>>
-Writable(a) == Len(a) = 0 \/ a[Len(a)] # BS
-LiteralsReadBack ==
-  d > 0 => \A i \in 1..N(Doc) : Doc.toks[i].k = "lit" =>
-             /\ Writable(Doc.toks[i].a)
-             /\ \A q \in {DQ, SQ} : ReadLit(RawSeq(Doc.toks[i].a, q, 1), q, 1) = <<TRUE, Doc.toks[i].a>>
+
+LiteralsReadBack == d > 0 => \A i \in 1..N(Doc) : Doc.toks[i].k = "lit" => ReadsBack(Doc.toks[i].a)
 
 =============================================================================
